@@ -518,4 +518,5 @@ def run(prog, res, tier):
     c09.r4_writer_tokens(prog, res)
     c09.r6_enum_item_match(prog, res)
     c09.r9_lookahead_not_stale(prog, res)
+    c09.r10_integer_buffer_fits(prog, res)
     r4_order(prog, res)
